@@ -2,6 +2,7 @@
 //! node (attribute and namespace nodes included) of generated trees.
 //!   axes <entry> <path> <tree>                 -> answer of the real xot, nodes written as paths
 //!   axes child_index <parent> <child> <tree>
+//! Also the accessors that hand out the nodes of one raw child list (`CHILD_LIST_ENTRIES`).
 //! The oracle (`oracle.rs` part below, independent of the Lean model) evaluates the C07 laws on
 //! the implementation's answers against an owned copy of the tree (`GTree`).
 use crate::common::{enc, guarded, Rng, Sink};
@@ -26,6 +27,14 @@ pub const VALUE_ENTRIES: &[&str] = &[
     "has_document_parent", "is_document_element", "get_element_name", "comment_str", "processing_instruction",
     "namespace_node", "attribute_node", "namespace_declarations", "get_attribute*20", "get_namespace*7",
 ];
+/// The accessors that hand out the nodes of one raw child list (Model/AxesChildLists.lean).
+/// `namespace_nodes` = `namespaces(node).nodes()`, `attributes_nodes` = `attributes(node).nodes()` (public
+/// API).  `all_children` / `abnormal_children` are `pub(crate)` in access.rs and have no hook: the harness
+/// asks for them through the public composition with the same meaning — `all_descendants(node)` filtered
+/// by `parent(m) == Some(node)`, resp. its longest prefix of attribute / namespace nodes
+/// (`is_attribute_node` / `is_namespace_node`) — and the model answers with its `allChildren` /
+/// `abnormalChildren`.
+pub const CHILD_LIST_ENTRIES: &[&str] = &["namespace_nodes", "attributes_nodes", "all_children", "abnormal_children"];
 pub const N_NAMES: usize = 20;
 pub const N_PREFIXES: usize = 7;
 pub const AXES: &[(&str, Axis)] = &[
@@ -45,7 +54,7 @@ pub const AXES: &[(&str, Axis)] = &[
 
 pub fn all_entries() -> Vec<String> {
     let mut v: Vec<String> = vec![];
-    for group in [OPT_ENTRIES, LIST_ENTRIES, EDGE_ENTRIES, EDGE_STEP_ENTRIES, OTHER_ENTRIES, VALUE_ENTRIES] {
+    for group in [OPT_ENTRIES, LIST_ENTRIES, EDGE_ENTRIES, EDGE_STEP_ENTRIES, OTHER_ENTRIES, VALUE_ENTRIES, CHILD_LIST_ENTRIES] {
         v.extend(group.iter().map(|s| s.to_string()));
     }
     v.extend(AXES.iter().map(|(n, _)| format!("axis_{}", n)));
@@ -159,6 +168,14 @@ impl<'a> Case<'a> {
             "reverse_preorder" => self.list(x.reverse_preorder(n)),
             "all_reverse_preorder" => self.list(x.all_reverse_preorder(n)),
             "attribute_nodes" => self.list(x.attribute_nodes(n)),
+            "namespace_nodes" => self.list(x.namespaces(n).nodes()),
+            "attributes_nodes" => self.list(x.attributes(n).nodes()),
+            "all_children" => self.list(x.all_descendants(n).filter(|m| x.parent(*m) == Some(n))),
+            "abnormal_children" => self.list(
+                x.all_descendants(n)
+                    .filter(|m| x.parent(*m) == Some(n))
+                    .take_while(|m| x.is_attribute_node(*m) || x.is_namespace_node(*m)),
+            ),
             "traverse" => self.edges(x.traverse(n)),
             "all_traverse" => self.edges(x.all_traverse(n)),
             "reverse_traverse" => self.edges(x.reverse_traverse(n)),
@@ -684,6 +701,106 @@ pub fn oracle(case: &Case, ans: &dyn Fn(&str, usize) -> String, fails: &mut Fail
                         fails.fail(sink, "C07:accessor-shortcut-differs-from-view", b, case.t, p, "value accessors");
                     }
                 }
+            }
+        }
+        // --- the child-list accessors: against the owned tree …
+        {
+            let kid_paths = sp.kid_paths(p);
+            let ns_run: Vec<Vec<usize>> = kid_paths.iter().take_while(|q| sp.cat(q) == 2).cloned().collect();
+            let at_run: Vec<Vec<usize>> = kid_paths.iter().skip_while(|q| sp.cat(q) == 2).take_while(|q| sp.cat(q) == 1).cloned().collect();
+            let ab_run: Vec<Vec<usize>> = kid_paths.iter().take_while(|q| sp.cat(q) != 0).cloned().collect();
+            check("namespace_nodes", plist(&ns_run), "C07:child-list-accessor-differs", fails, sink);
+            check("attributes_nodes", plist(&at_run), "C07:child-list-accessor-differs", fails, sink);
+            check("all_children", plist(&kid_paths), "C07:child-list-accessor-differs", fails, sink);
+            check("abnormal_children", plist(&ab_run), "C07:child-list-accessor-differs", fails, sink);
+            // … and the laws on the implementation's answers alone: all_children = namespace nodes ++
+            // attribute nodes ++ children, in document order, no node twice (the three lists are disjoint
+            // and every normal child appears exactly once); attributes(node).nodes() = attribute_nodes(node);
+            // abnormal_children = namespace nodes ++ attribute nodes; every node handed out has `node` as parent
+            let l_ns = parse_list(&ans("namespace_nodes", i));
+            let l_at = parse_list(&ans("attribute_nodes", i));
+            let l_at2 = parse_list(&ans("attributes_nodes", i));
+            let l_ch = parse_list(&ans("children", i));
+            let l_all = parse_list(&ans("all_children", i));
+            let l_ab = parse_list(&ans("abnormal_children", i));
+            let mut cat: Vec<String> = l_ns.clone();
+            cat.extend(l_at.iter().cloned());
+            let abn = cat.clone();
+            cat.extend(l_ch.iter().cloned());
+            let mut why: Vec<String> = vec![];
+            if cat != l_all {
+                why.push(format!("all_children [{}] is not namespace nodes ++ attribute nodes ++ children [{}]", l_all.join(" "), cat.join(" ")));
+            }
+            let distinct: HashSet<&String> = cat.iter().collect();
+            if distinct.len() != cat.len() {
+                why.push(format!("a node occurs twice in namespace nodes ++ attribute nodes ++ children [{}]", cat.join(" ")));
+            }
+            let idxs: Vec<usize> = cat.iter().filter_map(|q| pos.get(q).copied()).collect();
+            if idxs.len() != cat.len() || !idxs.windows(2).all(|w| w[0] < w[1]) {
+                why.push(format!("namespace nodes ++ attribute nodes ++ children [{}] is not in document order", cat.join(" ")));
+            }
+            if l_at2 != l_at {
+                why.push(format!("attributes(node).nodes() [{}] differs from attribute_nodes(node) [{}]", l_at2.join(" "), l_at.join(" ")));
+            }
+            if l_ab != abn {
+                why.push(format!("abnormal_children [{}] is not namespace nodes ++ attribute nodes [{}]", l_ab.join(" "), abn.join(" ")));
+            }
+            for q in &cat {
+                if pos.get(q).map(|j| case.paths[*j].len() != p.len() + 1 || !is_prefix(p, &case.paths[*j])).unwrap_or(true) {
+                    why.push(format!("{} is handed out as a child-list node of {} but is not its child", q, path_str(p)));
+                }
+            }
+            for (l, c, name) in [(&l_ns, 2u8, "namespace_nodes"), (&l_at, 1u8, "attribute_nodes"), (&l_ch, 0u8, "children")] {
+                for q in l.iter() {
+                    if pos.get(q).map(|j| sp.cat(&case.paths[*j]) != c).unwrap_or(true) {
+                        why.push(format!("{} yields {} of another category", name, q));
+                    }
+                }
+            }
+            // the map views agree with their node lists: len(), and get_node(key of the node) is the first
+            // node of the list carrying that key
+            let x = case.xot;
+            let nd = case.nodes[i];
+            let views = guarded(|| {
+                let mut bad: Vec<String> = vec![];
+                let nsn: Vec<Node> = x.namespaces(nd).nodes().collect();
+                if x.namespaces(nd).len() != nsn.len() || x.namespaces(nd).is_empty() != nsn.is_empty() {
+                    bad.push("namespaces(node).len() / is_empty() disagree with nodes()".to_string());
+                }
+                for m in &nsn {
+                    let key = x.namespace_node(*m).map(|v| v.prefix());
+                    let first = nsn.iter().copied().find(|k| x.namespace_node(*k).map(|v| v.prefix()) == key);
+                    if key.is_none() || key.and_then(|k| x.namespaces(nd).get_node(k)) != first {
+                        bad.push("namespaces(node).get_node(prefix) is not the first namespace node with that prefix".to_string());
+                    }
+                }
+                let atn: Vec<Node> = x.attributes(nd).nodes().collect();
+                if x.attributes(nd).len() != atn.len() || x.attributes(nd).is_empty() != atn.is_empty() {
+                    bad.push("attributes(node).len() / is_empty() disagree with nodes()".to_string());
+                }
+                for m in &atn {
+                    let key = x.attribute_node(*m).map(|v| v.name());
+                    let first = atn.iter().copied().find(|k| x.attribute_node(*k).map(|v| v.name()) == key);
+                    if key.is_none() || key.and_then(|k| x.attributes(nd).get_node(k)) != first {
+                        bad.push("attributes(node).get_node(name) is not the first attribute node with that name".to_string());
+                    }
+                }
+                bad
+            });
+            match views {
+                None => why.push("a node-map view panicked on a live node".to_string()),
+                Some(bad) => why.extend(bad),
+            }
+            sink.stat("oracle.child-lists.partition-checked");
+            let kinds = (!l_ns.is_empty()) as usize + (!l_at.is_empty()) as usize + (!l_ch.is_empty()) as usize;
+            sink.stat(&format!("childlist.all_children.{}", match kinds { 0 => "empty", 1 => "one-kind", 2 => "two-kinds", _ => "three-kinds" }));
+            sink.stat(if l_ns.is_empty() { "childlist.namespace_nodes.empty" } else if l_ns.len() == 1 { "childlist.namespace_nodes.one" } else { "childlist.namespace_nodes.several" });
+            sink.stat(if l_at2.is_empty() { "childlist.attributes_nodes.empty" } else if l_at2.len() == 1 { "childlist.attributes_nodes.one" } else { "childlist.attributes_nodes.several" });
+            if !me_normal {
+                sink.stat("childlist.at-abnormal-node");
+            }
+            for w in why {
+                fails.fail(sink, "C07:child-list-accessor-differs", w, case.t, p, "child-list accessors");
             }
         }
         // --- plain variants never expose namespace / attribute nodes (other than the start node)
